@@ -26,5 +26,13 @@ def run(tier):
                             "diameter + 1 (thorough: + 2 and 50); real DBA computations under seeded FIFO schedules (random, laggard computation, "
                             "all starts first, barrier), up to 400/1500 steps; at every step where a computation reports finished, AlgoMon "
                             "evaluates every constraint on the values held by all computations; non-trivial = executions in which DBA "
-                            "terminated (all computations finished)")
+                            "terminated (all computations finished). "
+                            "MODEL: Dba.tla (DbaComputation: wait-ok / wait-improve modes, constraint weights, quasi-local-minimum breakout, "
+                            "termination counter, end flood, postponed lists flushed as the code does) checked by TLC over every start order, "
+                            "FIFO delivery order and random draw up to MaxCyc rounds: invariants FinishedOnlyOnSolution (C09), ValueInDomain, "
+                            "CounterBounded, WeightsPositive, AtMostOnePostponed, NeighbourSkew; every explored transition replayed on the real "
+                            "computations with the whole local state (weights, violated constraints, counters, flags, postponed lists) and every "
+                            "message compared")
+    from ..dbamodel import model_part
+    model_part(v, tier, CLAUSES, ["sat"], seed_off=3)
     return v.finish()
